@@ -221,6 +221,7 @@ def lexer_rules(repo):
             raise TranslateError("lexer.l: %%option %s missing" % opt)
     out = []   # (kind, lit, tok)
     expect_fixed = []
+    soft = []
     for pat, action in _split_rules(rules_text):
         if isinstance(action, list):
             blk = [_norm(x) for x in action]
@@ -230,8 +231,14 @@ def lexer_rules(repo):
             continue   # modelled by Lex.commentStep; the rule that opens it is the "/*" rule below
         na = _norm(action)
         m = re.fullmatch(r"\{return(T_[A-Z0-9_]+|'(?:\\.|[^\\'])');\}", na)
+        msoft = re.fullmatch(r"\{if\(!\(syntax&syntax_t::PROPERTY\)&&ch->is_type\(utap_text\)\)\{strncpy\(utap_lval\.string,utap_text,MAXLEN\);"
+                             r"returnT_TYPENAME;\}return('(?:\\.|[^\\'])');\}", na)
         if re.fullmatch(r'"(?:\\.|[^"\\])+"', pat) and m:
             out.append(("lit", _unq(pat), m.group(1)))
+        elif re.fullmatch(r'"[A-Za-z]"', pat) and msoft and msoft.group(1) == "'%s'" % _unq(pat):
+            # repaired one-letter rule (proposed_fixes/C09-typedef-one-letter.diff): T_TYPENAME if the name is a type, else the token
+            out.append(("lit", _unq(pat), msoft.group(1)))
+            soft.append(_unq(pat))
         elif re.fullmatch(r'"(?:\\.|[^"\\])+"', pat) and na in (_old_action("T_LEQ"), _old_action("T_GEQ")):
             out.append(("litOld", _unq(pat), "T_LEQ" if "T_LEQ" in na else "T_GEQ"))
         elif pat == r'"\\"[\t' and False:
@@ -297,7 +304,7 @@ def lexer_rules(repo):
             bits[name] = v
     if len(expect_fixed) != 1:
         raise TranslateError("lexer.l: expected exactly one <comment> block")
-    return out, maxlen, bits, expect_fixed[0]
+    return out, maxlen, bits, expect_fixed[0], soft
 
 
 # ------------------------------------------------------------------------------------------------------------------
@@ -464,7 +471,7 @@ def _chs(s):
 
 
 def tables(repo):
-    rules, maxlen, bits, expect_fixed = lexer_rules(repo)
+    rules, maxlen, bits, expect_fixed, soft = lexer_rules(repo)
     kws = keywords(repo, bits)
     g = grammar(repo)
     toks = []
@@ -486,7 +493,7 @@ def tables(repo):
             tid(t)
     for t, _ in g["binary"] + g["unary"] + g["assign"] + g["nontype"]:
         tid(t)
-    return {"rules": rules, "maxlen": maxlen, "bits": bits, "keywords": kws, "grammar": g, "toks": toks, "expect_fixed": expect_fixed}
+    return {"rules": rules, "maxlen": maxlen, "bits": bits, "keywords": kws, "grammar": g, "toks": toks, "expect_fixed": expect_fixed, "soft": soft}
 
 
 def _ident(name):
@@ -523,6 +530,8 @@ def lean_text(repo):
     o.append("def maxLen : Nat := %d" % t["maxlen"])
     o.append("/-- the EXPECT rule of the <comment> start condition is the variant that stops before a closing `*/` -/")
     o.append("def expectStopsBeforeClose : Bool := %s" % ("true" if t["expect_fixed"] else "false"))
+    o.append("/-- texts of the literal rules whose action first asks `is_type` outside PROPERTY syntax (empty unless repaired) -/")
+    o.append("def softLits : List (List Ch) := [%s]" % ", ".join(_chs(x) for x in t["soft"]))
     for b in ("OLD", "NEW", "PROPERTY", "GUIDING", "TIGA", "PROB"):
         if b not in t["bits"]:
             raise TranslateError("syntax_t bit %s missing" % b)
